@@ -32,6 +32,12 @@ func genOverride(rng *rand.Rand, nodeID string) string {
 	if rng.Intn(25) == 0 {
 		return []string{"enode://a b@%zz", "enode://" + nodeID + "@::1:30303", "://x", "enode://[::1"}[rng.Intn(4)]
 	}
+	if rng.Intn(12) == 0 {
+		// opaque forms: a scheme and a colon but no "//": the URL parser finds neither user nor host
+		other := nodeIDOf("h2")
+		return []string{"enode:" + other + "@6.6.6.6:30666", "enode:" + nodeID + "@1.2.3.4:30303", "enode:x", "mailto:" + other + "@example.com",
+			"enode:/" + other + "@6.6.6.6:1", "enode:?" + other}[rng.Intn(6)]
+	}
 	scheme := []string{"enode", "enode", "enode", "http", "ws"}[rng.Intn(5)]
 	user := ""
 	switch rng.Intn(8) {
